@@ -18,7 +18,7 @@ def run(tier, seed):
                                                    4, durs=(0, 1), scriptops={"free", "fin"})),
         ]) + [
             dict(name="C10_rand", consts=ec.consts({1, 2, 3, 4}, A, 16 if q else 28, durs=(0, 1, 2), scriptops=S, prealloc=False),
-                 simulate=120 if q else 1500, depth=600, constraint="GenConstraintNT"),
+                 simulate=120 if q else 500, depth=600, constraint="GenConstraintNT"),
         ],
         "need_ops": ["fin", "free", "once", "basefree", "loop", "cb:fin", "cb:once", "cb:cb", "script:free", "script:fin"],
         "rule": "histories that create, activate, finalize (event_finalize / event_free_finalize) and free events and once-events at "
